@@ -497,7 +497,7 @@ fn run_nests(tier: Tier, seed: u64) -> SubReport {
     let mut failures = vec![];
     let mut children = vec![];
     for p in 0..procs {
-        let status = format!("{VERIF_DIR}/.target/c06-nest-{}-{p}.status", std::process::id());
+        let status = format!("{}/.target/c06-nest-{}-{p}.status", out_dir(), std::process::id());
         let child = std::process::Command::new(&exe)
             .arg("c06-worker")
             .arg(format!("{}", crate::tape::mix(seed, 1000 + p)))
@@ -565,7 +565,7 @@ fn replay_nest(desc: &Value) -> CaseResult {
     let text = desc.get("text").and_then(|x| x.as_str()).unwrap_or("");
     // in a child with the 8 MiB stack
     let exe = std::env::current_exe().map_err(|e| fail("C06/replay", e.to_string(), json!({})))?;
-    let file = format!("{VERIF_DIR}/.target/c06-replay-{}.txt", std::process::id());
+    let file = format!("{}/.target/c06-replay-{}.txt", out_dir(), std::process::id());
     std::fs::write(&file, text).map_err(|e| fail("C06/replay", e.to_string(), json!({})))?;
     let out = std::process::Command::new(exe).arg("c06-text").arg(&file).output();
     let _ = std::fs::remove_file(&file);
